@@ -141,7 +141,20 @@ fn main() {
                     rep.add_violation(f);
                 }
             }
-            let meta = run(&ctx, &rep);
+            // a panic outside the guarded library calls (e.g. a poisoned lock inside the library while the
+            // harness prepares the next check) must not lose what was found so far
+            let meta = match catch(|| run(&ctx, &rep)) {
+                Ok(m) => m,
+                Err(p) => {
+                    if rep.violation_count() > 0 {
+                        rep.note(format!("the run was cut short by a panic outside a guarded call after the first violation: {}", p));
+                        Meta { rule: "run cut short by a panic after a violation had been recorded (see notes)".into(), assumptions: vec![] }
+                    } else {
+                        out(&format!("INCONCLUSIVE property={} panic in the harness outside a guarded library call: {}", id, p));
+                        std::process::exit(2);
+                    }
+                }
+            };
             let code = finish(&ctx, &rep, &meta);
             std::process::exit(code);
         }
